@@ -198,7 +198,7 @@ Qed.
 Lemma wf_check e s : WF s -> WF (do_check e s).
 Proof.
   intros Hwf. unfold do_check. open_op s e Hwf.
-  destruct Hoo as (d & Hd & Hown & Hrc & Hdead).
+  destruct Hoo as (d & Hd & Hown & Hrc & Hdead & Hargs & Hopts).
   unfold with_proc.
   apply (op_step s last hd ops txn e o Hwf Hp Hf Hact).
   - reflexivity.
@@ -215,7 +215,7 @@ Proof. unfold touch. now intros ->. Qed.
 Lemma wf_write_args e s : WF s -> WF (do_write_args e s).
 Proof.
   intros Hwf. unfold do_write_args. open_op s e Hwf.
-  destruct Hoo as (d & Hd & Hown & Hrc & Hdead & _).
+  destruct Hoo as (d & Hd & Hown & Hrc & Hdead).
   unfold with_proc, with_dirs. simpl.
   destruct (fst (o_need o)) eqn:Hneed.
   - rewrite (touch_lookup _ _ _ _ Hd).
@@ -228,14 +228,14 @@ Proof.
         apply (live_kid_not_closed _ _ _ _ Hk Hl Hd). left. congruence.
       * apply (wf_kids _ Hwf).
     + reflexivity.
-    + apply op_ok_set. unfold op_ok_at, finished. exists (set_args true d). rewrite lookup_put_eq.
+    + apply op_ok_set. unfold op_ok_at. exists (set_args true d). rewrite lookup_put_eq.
       repeat split; try apply Hown; auto.
   - apply (op_step s last hd ops txn e o Hwf Hp Hf Hact).
     + reflexivity.
     + intros d' Hd'. apply (wf_dirs _ Hwf _ _ Hd').
     + apply (wf_kids _ Hwf).
     + reflexivity.
-    + apply op_ok_set. unfold op_ok_at, finished. exists d. repeat split; try apply Hown; auto.
+    + apply op_ok_set. unfold op_ok_at. exists d. repeat split; try apply Hown; auto.
       rewrite Hneed. discriminate.
 Qed.
 
@@ -255,14 +255,14 @@ Proof.
         apply (live_kid_not_closed _ _ _ _ Hk Hl Hd). left. congruence.
       * apply (wf_kids _ Hwf).
     + reflexivity.
-    + apply op_ok_set. unfold op_ok_at, finished. exists (set_opts true d). rewrite lookup_put_eq.
+    + apply op_ok_set. unfold op_ok_at. exists (set_opts true d). rewrite lookup_put_eq.
       repeat split; try apply Hown; auto.
   - apply (op_step s last hd ops txn e o Hwf Hp Hf Hact).
     + reflexivity.
     + intros d' Hd'. apply (wf_dirs _ Hwf _ _ Hd').
     + apply (wf_kids _ Hwf).
     + reflexivity.
-    + apply op_ok_set. unfold op_ok_at, finished. exists d. repeat split; try apply Hown; auto.
+    + apply op_ok_set. unfold op_ok_at. exists d. repeat split; try apply Hown; auto.
       rewrite Hneed. discriminate.
 Qed.
 
